@@ -2,7 +2,7 @@
     - [format_bonding_spec] (this component; the GENERATED format_bonding), and
     - [strip_correct] (component Frag: the model StripImpl.strip_bonding_descriptors returns [strip_spec]).
     For every organic-subset atom [e] and every descriptor list with kinds $ > < !, alphanumeric labels and
-    orders 0..3, the text  e ++ format_bonding(L)  is read back by strip_bonding_descriptors (model) as the
+    orders 0..4, the text  e ++ format_bonding(L)  is read back by strip_bonding_descriptors (model) as the
     clean text [e] with exactly the list L on atom 0.  Order 0 is included since the reader fix 0d0f450
     (`elif current_order is not None`).  Coarse atoms [#name] are not covered by this theorem. *)
 From Coq Require Import String.
@@ -15,28 +15,27 @@ Definition dspec := (ascii * pystr * nat)%type.          (* kind, label, order *
 Definition d_kl (x : dspec) : pystr := fst (fst x) :: snd (fst x).
 Definition d_stored (x : dspec) : pystr := mk_descr (d_kl x) (snd x).       (* what the graph stores: "$a2" *)
 Definition d_ok (x : dspec) : bool :=
-  char_in (fst (fst x)) kind_chars && forallb is_alnum (snd (fst x)) && Nat.leb (snd x) 3.
+  char_in (fst (fst x)) kind_chars && forallb is_alnum (snd (fst x)) && Nat.leb (snd x) 4.
 Definition sym_bsym (o : nat) : option bsym :=
-  match o with 0%nat => Some BZero | 2%nat => Some BDouble | 3%nat => Some BTriple | _ => None end.
+  match o with 0%nat => Some BZero | 2%nat => Some BDouble | 3%nat => Some BTriple | 4%nat => Some BQuad | _ => None end.
 Definition to_desc (x : dspec) : desc := {| d_kind := fst (fst x); d_label := snd (fst x); d_sym := sym_bsym (snd x) |}.
 
-Lemma order_cases x : d_ok x = true -> snd x = 0%nat \/ snd x = 1%nat \/ snd x = 2%nat \/ snd x = 3%nat.
+Lemma order_cases x : d_ok x = true -> snd x = 0%nat \/ snd x = 1%nat \/ snd x = 2%nat \/ snd x = 3%nat \/ snd x = 4%nat.
 Proof.
   unfold d_ok. intros H. apply andb_prop in H as [H H3]. apply Nat.leb_le in H3. lia.
 Qed.
 Lemma render_desc x : d_ok x = true -> render_item (IDesc (to_desc x)) = fb_item (d_kl x, snd x).
 Proof.
-  intros H. destruct x as [[k lab] o]. destruct (order_cases _ H) as [E|[E|[E|E]]]; cbn in E; subst o; reflexivity.
+  intros H. destruct x as [[k lab] o]. destruct (order_cases _ H) as [E|[E|[E|[E|E]]]]; cbn in E; subst o; reflexivity.
 Qed.
 Lemma entry_desc x : d_ok x = true -> desc_entry (to_desc x) = d_stored x.
 Proof.
-  intros H. destruct x as [[k lab] o]. destruct (order_cases _ H) as [E|[E|[E|E]]]; cbn in E; subst o; reflexivity.
+  intros H. destruct x as [[k lab] o]. destruct (order_cases _ H) as [E|[E|[E|[E|E]]]]; cbn in E; subst o; reflexivity.
 Qed.
 Lemma desc_ok_to_desc x : d_ok x = true -> desc_ok (to_desc x) = true.
 Proof.
-  intros H. pose proof (order_cases _ H) as C. unfold d_ok in H. apply andb_prop in H as [H _].
-  unfold desc_ok, to_desc. cbn [d_kind d_label d_sym]. rewrite H. cbn [andb].
-  destruct C as [E|[E|[E|E]]]; rewrite E; reflexivity.
+  intros H. unfold d_ok in H. apply andb_prop in H as [H _].
+  unfold desc_ok, to_desc. cbn [d_kind d_label d_sym]. exact H.
 Qed.
 Section Round.
   Variables (fo : float_oracle) (e : pystr) (L : list dspec).
@@ -98,7 +97,7 @@ Section Round.
     - replace (map d_stored L) with (map (fun klo => mk_descr (fst klo) (snd klo)) (map (fun x => (d_kl x, snd x)) L))
         by (rewrite map_map; reflexivity).
       apply format_bonding_spec. apply Forall_forall. intros klo Hin. apply in_map_iff in Hin as [x [<- Hx]].
-      rewrite forallb_forall in HL. specialize (HL x Hx). destruct (order_cases _ HL) as [E|[E|[E|E]]]; cbn [snd]; lia.
+      rewrite forallb_forall in HL. specialize (HL x Hx). destruct (order_cases _ HL) as [E|[E|[E|[E|E]]]]; cbn [snd]; lia.
     - rewrite <- render_eq. rewrite strip_correct by (apply wf_ok || apply not_excluded). apply spec_eq.
   Qed.
 End Round.
@@ -183,7 +182,7 @@ Section RoundCoarse.
     - replace (map d_stored L) with (map (fun klo => mk_descr (fst klo) (snd klo)) (map (fun x => (d_kl x, snd x)) L))
         by (rewrite map_map; reflexivity).
       apply format_bonding_spec. apply Forall_forall. intros klo Hin. apply in_map_iff in Hin as [x [<- Hx]].
-      rewrite forallb_forall in HL. specialize (HL x Hx). destruct (order_cases _ HL) as [E|[E|[E|E]]]; cbn [snd]; lia.
+      rewrite forallb_forall in HL. specialize (HL x Hx). destruct (order_cases _ HL) as [E|[E|[E|[E|E]]]]; cbn [snd]; lia.
     - rewrite <- render_eq_c. rewrite strip_correct by (apply wf_ok_c || apply not_excluded_c). apply spec_eq_c.
   Qed.
 End RoundCoarse.
